@@ -349,6 +349,36 @@ Arguments state2 T : clear implicits.
 Arguments op2 T : clear implicits.
 Arguments out2 T : clear implicits.
 
+(** ** Save_Function: an OUTPUT of the object (the table it writes must follow the prefactor and the history exactly as
+    Interpolate does).
+      void Interpolation::Save_Function(std::string filename, unsigned int points)
+        { x_points = Linear_Space(domain[0], domain[1], points); for(auto& x : x_points) f << x << "\t" << Interpolate(x) << std::endl; }
+      void Interpolation_2D::Save_Function(filename, x_points, y_points = 0)
+        { if(y_points == 0) y_points = x_points; x_list = Linear_Space(domain[0][0], domain[0][1], x_points); y_list likewise;
+          for(x) for(y) f << x << "\t" << y << "\t" << Interpolate(x, y) << std::endl; }
+    Utilities.cpp  Linear_Space(min, max, steps): if(steps < 2 || min == max) return {min};
+        step = (max - min) / (steps - 1.0);  for(unsigned i = 0; i < steps; i++) result.push_back(min + i * step);
+    The calls Save_Function makes on the object are member calls of the model ([OpInterpolate] / [Op2Interpolate]), in this order;
+    a row of the file is the argument and the value of the call (the text formatting is not modelled). *)
+Section SaveFunction.
+Context {T : Type} (Ops : NumOps T).
+
+Definition linear_space (mn mx : T) (steps : Z) : list T :=
+  if (steps <? 2) || neqb Ops mn mx then [mn]
+  else
+    let step := ndiv Ops (nsub Ops mx mn) (nsub Ops (nofZ Ops steps) (n1 Ops)) in
+    map (fun i => nadd Ops mn (nmul Ops (nofZ Ops i) step)) (zrange steps).
+
+(** domain = {x_values[0], x_values[N-1]} *)
+Definition save_ops (N : Z) (xv : Z -> T) (points : Z) : list (op T) :=
+  map (fun x => OpInterpolate x) (linear_space (xv 0) (xv (N - 1)) points).
+
+Definition save_ops2 (Nx : Z) (xv : Z -> T) (Ny : Z) (yv : Z -> T) (x_points y_points : Z) : list (op2 T) :=
+  let y_points' := if y_points =? 0 then x_points else y_points in
+  let y_list := linear_space (yv 0) (yv (Ny - 1)) y_points' in
+  flat_map (fun x => map (fun y => Op2Interpolate x y) y_list) (linear_space (xv 0) (xv (Nx - 1)) x_points).
+End SaveFunction.
+
 (** ** The constructors (every overload, with the unit arguments x_dim / y_dim / f_dim).
     The unit arguments enter the TABLES only (a factor > 0 multiplies every abscissa / function value,
     anything else — the default -1.0 included — leaves them alone); the members that the queries
